@@ -179,6 +179,28 @@ def pinv_case(n=2):
   return fn
 
 
+def pinv_grid_case():
+  """NOT solver-decided (float spectra over many orders of magnitude, dtype-dependent code paths):
+  the default cut-off is relative, n * eps * max(w): eigenvalue ratios from 1e-2 to 1e-14 are inverted"""
+  def fn(ctx):
+    U = _u()
+    for n in (2, 3):
+      for e in range(2, 15):
+        for scale in (1e-6, 1.0, 1e6):
+          w = np.array([10.0 ** (-e)] + [1.0] * (n - 1)) * scale
+          V = np.eye(n)
+          with warnings.catch_warnings():
+            warnings.simplefilter('ignore')
+            P = U._pseudo_inverse_from_eig(w.copy(), V)
+          want = np.diag(1.0 / w)
+          ctx.require('small_but_significant_eigenvalue_inverted', ctx.cond(np.allclose(P, want, rtol=1e-9)),
+                      detail='ratio 1e-%d scale %g' % (e, scale))
+      w = np.array([1e-17, 1.0])
+      P = U._pseudo_inverse_from_eig(w.copy(), np.eye(2))
+      ctx.require('eigenvalue_below_relative_cutoff_dropped', ctx.cond(P[0, 0] == 0.0 and P[1, 1] == 1.0))
+  return fn
+
+
 class _EighSpy:
   def __init__(self):
     self.args = []
@@ -485,6 +507,8 @@ def cases(tier, seed):
     out.append(case('sdp_n%d' % n, sdp_case(n), FUNCS, '%d arbitrary real eigenvalues, arbitrary real tol or default' % n,
                     tiers=Q if n <= 3 else T, cost=n))
   out.append(case('pinv_n2', pinv_case(2), FUNCS, '2 arbitrary eigenvalues, arbitrary 2x2 V, default (relative) cutoff', cost=3))
+  out.append(case('pinv_float_grid', pinv_grid_case(), FUNCS, 'diagonal spectra with ratios 1e-2..1e-14 at scales 1e-6, 1, 1e6 (concrete, sampled)',
+                  concrete_only=True, validate=1, cost=1))
   out.append(case('pinv_n3', pinv_case(3), FUNCS, '3 arbitrary eigenvalues, arbitrary 3x3 V', tiers=T, cost=10))
   out.append(case('init_cov_pairs_d1', init_cov_case(2, 1, 2), FUNCS,
                   '2 pairs of arbitrary points in R^1 (shared / duplicated points chosen by the solver)', cost=10, max_paths=100000))
